@@ -14,7 +14,8 @@
 //     => <tok>/<R>/<=|!> …      one group per `stream >> ST::string` until the extraction fails: the token a
 //        std::basic_string extraction takes from an identical stream, the ST::string afterwards (or the exception),
 //        and whether both streams are in the same state
-// dm names the library's default validation in this build (ST_DEFAULT_VALIDATION); the argument syntax is that of
+// dm names the library's default validation in this build (ST_DEFAULT_VALIDATION); the observation repeats it and that
+// copy is what the driver uses, so a recorded line replays in every build.  The argument syntax is that of
 // harness/fmt.cpp (whose generator pieces are copied here, restricted to calls that cannot trip the char-padding
 // assertion).
 #include "st_common.hpp"
@@ -168,35 +169,23 @@ template <class... A> static std::string all_sinks(const char *f, const A &...a)
     out += " w=" + tok([&]() { return wide_sink<wchar_t>(f, a...); });
     out += " h=" + tok([&]() { return wide_sink<char16_t>(f, a...); });
     out += " u=" + tok([&]() { return wide_sink<char32_t>(f, a...); });
+    out += std::string(" dm=") + VH_DEFAULT_MODE;      // the default validation of this build judges, whatever the input line says
     return out;
 }
 
-// the same call with the argument passed as its real C++ type (one argument): the route a user takes
+// the same call with the argument passed as its real C++ type (one argument): the route a user takes.  Which
+// format_type overload an argument type selects is C10/C11's subject (harness/fmt.cpp makes every call both ways); the
+// sinks are reached through the virtual format_writer interface whatever the argument type, so a representative of each
+// renderer suffices here (and keeps the compile time of this harness in bounds).
+static bool has_typed1(const std::string &k) { return k == "i32" || k == "cs" || k == "S" || k == "d" || k == "c8" || k == "b"; }
 static std::string all_sinks_typed1(const char *f, const AnyArg &a) {
     const std::string &k = a.kind;
-    if (k == "i8") return all_sinks(f, (signed char)a.sv);
-    if (k == "i16") return all_sinks(f, (short)a.sv);
     if (k == "i32") return all_sinks(f, (int)a.sv);
-    if (k == "il") return all_sinks(f, (long)a.sv);
-    if (k == "ill") return all_sinks(f, (long long)a.sv);
-    if (k == "u8") return all_sinks(f, (unsigned char)a.uv);
-    if (k == "u16") return all_sinks(f, (unsigned short)a.uv);
-    if (k == "u32") return all_sinks(f, (unsigned int)a.uv);
-    if (k == "ul") return all_sinks(f, (unsigned long)a.uv);
-    if (k == "ull") return all_sinks(f, (unsigned long long)a.uv);
-    if (k == "c") return all_sinks(f, (char)a.sv);
-    if (k == "wc") return all_sinks(f, (wchar_t)a.sv);
     if (k == "c8") return all_sinks(f, (char8_t)a.uv);
-    if (k == "c16") return all_sinks(f, (char16_t)a.uv);
-    if (k == "c32") return all_sinks(f, (char32_t)a.uv);
     if (k == "b") return all_sinks(f, (bool)(a.uv != 0));
     if (k == "cs") return all_sinks(f, (const char *)a.bytes.c_str());
-    if (k == "cn") return all_sinks(f, (const char *)nullptr);
     if (k == "S") return all_sinks(f, a.st);
-    if (k == "ss") return all_sinks(f, a.bytes);
-    if (k == "sv") return all_sinks(f, std::string_view(a.bytes));
     if (k == "d") return all_sinks(f, a.d);
-    if (k == "fl") return all_sinks(f, a.f);
     return "bad-kind";
 }
 
@@ -220,13 +209,12 @@ static std::string exec_fmt(const Args &a) {
     case 0: return all_sinks(f);
     case 1: {
         std::string r = all_sinks(f, args[0]);
-        std::string t = all_sinks_typed1(f, args[0]);
-        if (t != r) return "route-mismatch";
+        if (has_typed1(args[0].kind) && all_sinks_typed1(f, args[0]) != r) return "route-mismatch";
         return r;
     }
     case 2: return all_sinks(f, args[0], args[1]);
     case 3: return all_sinks(f, args[0], args[1], args[2]);
-    default: return all_sinks(f, args[0], args[1], args[2], args[3]);
+    default: return "too-many-args";
     }
 }
 
@@ -271,6 +259,7 @@ template <class C> static std::string do_extract(const std::vector<uint64_t> &in
         out += hex_units(ref.data(), ref.size()) + "/" + r + "/" + (a.rdstate() == b.rdstate() ? "=" : "!");
         if (b.fail()) break;
     }
+    out += std::string(" dm=") + VH_DEFAULT_MODE;
     return out;
 }
 static std::string exec_ext(const Args &a) {
@@ -613,7 +602,7 @@ static void gen_fmt(Gen &g) {
     long nrand = thorough ? 200000 : 8000;
     for (long r = SL; r < nrand; r += NS) {
         Rng rng(opt.seed * 0x9E3779B97F4A7C15ULL + (uint64_t)r * 2654435761ULL + 17);
-        int nargs = (int)rng.below(5);
+        int nargs = (int)rng.below(4);
         std::vector<std::string> args; for (int i = 0; i < nargs; ++i) args.push_back(random_arg(rng, true));
         int nf = 1 + (int)rng.below(3);
         std::string s = random_literal(rng);
